@@ -900,5 +900,18 @@ pub fn run(cfg: &RunCfg, which: Which) -> Report {
         }
     }
     let _ = (REWARD_ACTOR_ADDR, BURNT_FUNDS_ACTOR_ADDR);
+    // C01 also covers payment-channel solvency ("a payment channel holds at least what it owes the
+    // payee"): a voucher/settle/collect campaign on the real paych actor, funds-related oracle kinds only
+    if which == Which::C01 && cfg.only_seq.is_none() {
+        let sub = crate::props::c16::run_as(cfg, "C01", Some(if cfg.thorough() { 1500 } else { 150 }));
+        rep.ops += sub.ops;
+        rep.ops_ok += sub.ops_ok;
+        for (k, v) in sub.op_hist.iter() { *rep.op_hist.entry(format!("paych:{}", k)).or_insert(0) += v; }
+        for v in sub.violations.into_iter() {
+            if ["owed-outside-0-balance", "fil-not-conserved", "collect-payout-wrong", "panic", "failed-message-changed-state"].contains(&v.kind.as_str()) {
+                rep.violations.push(crate::report::Violation { kind: format!("paych-{}", v.kind), detail: v.detail, replay: v.replay });
+            }
+        }
+    }
     rep
 }
